@@ -274,8 +274,13 @@ class _SetIteration:
             assert not useValues
             if not isinstance(to_iterate, _Base):
                 # We know _Base (Set, Bucket, Tree, TreeSet) will all iterate
-                # in sorted order. Other than that, we have no guarantee.
-                self.to_iterate = to_iterate = sorted(self.to_iterate)
+                # in sorted order. Other than that, we have no guarantee -
+                # including that each key occurs only once.
+                distinct = []
+                for key in sorted(self.to_iterate):
+                    if not distinct or compare(distinct[-1], key) != 0:
+                        distinct.append(key)
+                self.to_iterate = to_iterate = distinct
 
         if useValues:
             try:
